@@ -279,6 +279,17 @@ def check_errors(t, v, errors, builder, which):
             continue
         if not isinstance(msg, str) or not msg:
             yield f"C03|{which}|empty-message|{name}", repr(e)
+        # rendering is pure: the same text again, and the error's path is untouched by it
+        try:
+            again = e.format(FMT)
+            keys_after = path_keys(e.path)
+        except Exception as ex:  # noqa: BLE001
+            yield f"C03|{which}|second-format-raises:{type(ex).__name__}|{name}", repr(e)
+            continue
+        if again != msg:
+            yield f"C03|{which}|message-changes-when-rendered-again|{name}", f"{msg} / {again}"
+        if keys_after != keys:
+            yield f"C03|{which}|rendering-changes-the-error-path|{name}", f"{keys} -> {keys_after}"
         full = list(keys)
         if name == "MissingKey":
             full.append(e.missing_key)
